@@ -244,6 +244,10 @@ def api_callable(node, tables=None, leafwrap=None):
     from atsim.potentials.spline import SplinePotential, Buck4_SplinePotential
     start = rec(node["start"])
     end = rec(node["end"])
+    s0 = node.get("s0", ["-inf"])
+    if s0[0] != "-inf":
+      # potable: the start potential of spline() acts from its own range start only
+      start = ap.create_Multi_Range_Potential_Form(ap.Multi_Range_Defn(s0[0], float(s0[1]), start))
     if node["kind"] == "exp_spline":
       return SplinePotential(start, end, node["rd"], node["ra"])
     return Buck4_SplinePotential(start, end, node["rd"], node["ra"], node["rmin"])
